@@ -338,4 +338,49 @@ example : ∃ e σ, evalProg 40 (progOf c!"fn g(a, a) { }\n") = .err e σ ∧ e.
     (f := fun e => (e.positions, e.payloadLocs)) (x := ([(1, 9)], [(1, 6)])) (by decide +kernel)
   exact ⟨e, σ, he, congrArg Prod.fst hp, congrArg Prod.snd hp⟩
 
+/-! ### `posOf` against the statement's own counting (known finding K7)
+
+`posOf` is the scanner's convention.  The statement counts "lines from 1 and columns from 1 within the line": the
+character at offset `k` is on line `1 + (number of line breaks before it)` at column `1 + (number of characters
+between the last line break before it and itself)`.  The two agree on every character except a line break. -/
+
+/-- the position of the character at offset `k` in the statement's own terms -/
+def truePos (src : List Char) (k : Nat) : Nat × Nat := (lineOf (src.take k), colOf (src.take k) + 1)
+
+theorem take_succ_of_get {src : List Char} {k : Nat} {c : Char} (h : src[k]? = some c) :
+    src.take (k + 1) = src.take k ++ [c] := by
+  rw [List.take_add_one, h]; rfl
+
+/-- every character other than a line break is reported where the statement says it is -/
+theorem posOf_eq_truePos {src : List Char} {k : Nat} {c : Char} (h : src[k]? = some c) (hc : c ≠ '\n') :
+    posOf src k = truePos src k := by
+  cases src with
+  | nil => simp at h
+  | cons a l =>
+    show (lineOf ((a :: l).take (k + 1)), colOf ((a :: l).take (k + 1))) = _
+    rw [take_succ_of_get h, lineOf_snoc, colOf_snoc, if_neg hc, if_neg hc]; rfl
+
+/-- K7: a line break is reported on the following line at column 0 — a position that does not exist — instead of at the end
+    of its own line -/
+theorem posOf_line_break {src : List Char} {k : Nat} (h : src[k]? = some '\n') :
+    posOf src k = ((truePos src k).1 + 1, 0) := by
+  cases src with
+  | nil => simp at h
+  | cons a l =>
+    show (lineOf ((a :: l).take (k + 1)), colOf ((a :: l).take (k + 1))) = _
+    rw [take_succ_of_get h, lineOf_snoc, colOf_snoc, if_pos rfl, if_pos rfl]; rfl
+
+/-- hence: the position of a lexical error is the offending character's own line and column, counted from 1, unless that
+    character is a line break (K7) -/
+theorem lexAll_error_true_pos (src : List Char) (e : LexError) (h : (lexAll src).2 = some e) (c : Char)
+    (hc : e.offender = some c) (hnl : c ≠ '\n') :
+    ∃ i, i < src.length ∧ src[i]? = some c ∧ e.loc = truePos src i := by
+  obtain ⟨i, hi, hl, ho⟩ := lexAll_error_pos src e h
+  exact ⟨i, hi, ho c hc, by rw [hl, posOf_eq_truePos (ho c hc) hnl]⟩
+
+/-- K7 is real: the line break after `\\x` is at 1:11 and is reported at 2:0 -/
+example : (lexAll c!"s := \"ab\\x\n9\"\n").2.map (fun e => (e.loc, e.offender)) = some ((2, 0), some '\n') ∧
+    truePos c!"s := \"ab\\x\n9\"\n" 10 = (1, 11) := by
+  decide +kernel
+
 end Seed.C18
